@@ -76,7 +76,7 @@ def gen_case(rng: Rng, i: int, tier: str):
     second = None
     if r2c.chance(0.15):
         second = {"op": "extractall"} if r2c.chance(0.5) else {"op": "extract", "targets": rsess.gen_targets(r2c, stub, absent_ok=True), "recursive": r2c.chance(0.5)}
-    return {"archive": arc, "block": multiblock["block"] if multiblock else None, "second": second,
+    return {"archive": arc, "block": multiblock["block"] if multiblock else None, "second": second, "first_callback": not (second is not None and r2c.chance(0.35)),
             "call": op, "open": r.pick(["path", "stream", "anon"]), "handler_ms": r.wpick([(4, 0), (2, 1), (2, 10), (2, 50)]),
             "clock_jump": r.pick([0.0, 0.3, 1.5]), "scheds": scheds,
             # what else the callback object is: a plain object, a progress tracker that is also a sized collection of the
@@ -170,10 +170,11 @@ def _one(py7zr, built, case, strat, res):
             z = py7zr.SevenZipFile(target, "r", password=built.password)
             try:
                 try:
+                    cb1 = Rec() if case.get("first_callback", True) else None
                     if case["call"]["op"] == "extractall":
-                        z.extractall(callback=Rec(), **sinkkw)
+                        z.extractall(callback=cb1, **sinkkw)
                     else:
-                        z.extract(targets=list(case["call"]["targets"]), recursive=case["call"]["recursive"], callback=Rec(), **sinkkw)
+                        z.extract(targets=list(case["call"]["targets"]), recursive=case["call"]["recursive"], callback=cb1, **sinkkw)
                     if case.get("second") is not None:
                         # a second extraction in the same session, after reset(), with a callback object of its own: each of
                         # the two accounts must be complete and go to the object it was asked for
@@ -235,6 +236,9 @@ def check_history(built, case, o):
         return _check_account(built, case, o)
     probs = []
     for tag, call, prods in ((0, case["call"], o["products"]), (1, case["second"], o["products2"])):
+        if tag == 0 and not case.get("first_callback", True):
+            # the first call was made without a callback: nothing of it may reach anybody
+            continue
         sub_case = dict(case)
         sub_case["call"] = call
         sub_o = dict(o)
@@ -264,6 +268,8 @@ def _check_account(built, case, o):
         probs.append(("event_after_close", "%d callbacks were delivered after close() returned (first: %r)" % (len(after), after[0][3:5])))
     if o["close_error"] is not None:
         probs.append(("close_raised", "close() raised %r" % o["close_error"]))
+    if kinds.count("pre") > 1 or kinds.count("post") > 1:
+        probs.append(("pre_post_repeated", "%d preparation and %d post-processing events in one account (order: %r)" % (kinds.count("pre"), kinds.count("post"), kinds[:6])))
     if "post" not in kinds:
         probs.append(("post_missing", "no postprocess event (events: %d)" % len(kinds)))
     elif [k for k in kinds if k != "w"][-1] != "post":
@@ -331,7 +337,7 @@ def run_case(case):
         backlog_s = o["queued_at_close"] * case["handler_ms"] / 1000.0
         bclass = "B" if backlog_s >= 0.95 else "A"
         cls = {"open": case["open"], "multi": built.nfolders > 1, "call": case["call"]["op"], "handler_ms": case["handler_ms"], "backlog_class": bclass,
-               "cb_shape": case.get("cb_shape", "plain"), "sink": case.get("sink", "factory"), "calls": 2 if case.get("second") is not None else 1}
+               "cb_shape": case.get("cb_shape", "plain"), "sink": case.get("sink", "factory"), "calls": 2 if case.get("second") is not None else 1, "first_callback": case.get("first_callback", True)}
         cls.update(gen.dep_flags([s.get("chain") for s in case["archive"]["sessions"]], None, None))
         # what close() did: the listed backlog finding is about its InternalError after the 1 s join, nothing else
         cls["close_error"] = type(o["close_error"]).__name__ if o["close_error"] is not None else None
